@@ -66,6 +66,9 @@ def extra_run_pairs(man, tier, seed):
             # n = 0 (e.g. NormalGamma: s + r m^2 - r' m'^2 cancels terms of size r m^2), so the slack scales with products
             # of the hyper-parameters, not with the field itself
             mag = sum(abs(float(v)) for v in (pv if isinstance(pv, (list, tuple)) else [pv]) if isinstance(v, (int, float)) and not isinstance(v, bool)) + 1.0
+            # a tiny hyper-parameter amplifies the cancellation error relative to itself (ln s with s = 1e-3): include reciprocals
+            mag += sum(1.0 / abs(float(v)) for v in (pv if isinstance(pv, (list, tuple)) else [pv])
+                       if isinstance(v, (int, float)) and not isinstance(v, bool) and v != 0)
             ok, detail = cmp_tokens(a0, enc(pv), 1e-12, 1e-15 * mag ** 3)
             if not ok:
                 failures.append({'site': post, 'case': lines[b], 'impl': a0, 'expected': enc(pv) + ' (the prior)', 'observed': 'value', 'detail': detail})
